@@ -13,9 +13,14 @@ Definition unwrap_hook (v : rv) : rv :=            (* a struct named Wrap is rep
   end.
 Definition const_hook (v : rv) : rv := Some (TInt I0, VInt 7).
 Definition nil_hook (v : rv) : rv := None.          (* reflect.ValueOf(nil): rejected by the evaluator *)
+(* a hook that rewrites scalars and leaves containers alone: plain strings are upper-cased (ASCII) *)
+Definition upper (x : Z) : Z := if (97 <=? x)%Z && (x <=? 122)%Z then (x - 32)%Z else x.
+Fixpoint upper_str (s : string) : string := match s with "" => "" | String c t => String (z2b (upper (b2z c))) (upper_str t) end.
+Definition upcase_hook (v : rv) : rv :=
+  match v with Some (TString, VStr s) => Some (TString, VStr (upper_str s)) | _ => v end.
 Definition hook_of (n : nat) : option (rv -> rv) :=
   match n with
-  | 0 => None | 1 => Some (fun v => v) | 2 => Some unwrap_hook | 3 => Some const_hook | _ => Some nil_hook
+  | 0 => None | 1 => Some (fun v => v) | 2 => Some unwrap_hook | 3 => Some const_hook | 4 => Some nil_hook | _ => Some upcase_hook
   end%nat.
 
 Lemma unwrap_hook_wt v : rwt v -> rwt (unwrap_hook v).
@@ -37,10 +42,11 @@ Qed.
 
 Theorem hook_family_ok (cfg : config) (n : nat) : hook cfg = hook_of n -> hook_ok cfg.
 Proof.
-  unfold hook_ok. intros ->. destruct n as [|[|[|[|n]]]]; cbn [hook_of]; try exact I; intros v Hv.
+  unfold hook_ok. intros ->. destruct n as [|[|[|[|[|n]]]]]; cbn [hook_of]; [exact I|..]; intros v Hv.
   - exact Hv.
   - apply unwrap_hook_wt. exact Hv.
   - reflexivity.
   - exact I.
+  - destruct v as [[t x]|]; [|exact I]. destruct t; try exact Hv. destruct x; exact Hv.
 Qed.
 Print Assumptions hook_family_ok.
